@@ -26,7 +26,7 @@ from vlib import gen
 from vlib.fitcase import Member
 from vlib.models import DENSITIES, FAMILIES, Model
 from vlib.monitor import OpTimeout, Tol, fmt_exc, time_limit
-from vlib.ref import COST_ALIASES, IS_CHI2, POISSON
+from vlib.ref import COST_ALIASES, POISSON
 
 from checks.c17 import _LATEX, Num, parse_pm, within_half
 
@@ -54,6 +54,11 @@ ASSUMPTIONS = [
     "the scale of the histogram density line (only proportionality to the density is required), whether a band is drawn when the fit has no valid errors",
     "fits that fail / do not converge / time out, and plots during which the fit state changed (C08's business) are discarded and counted, never judged",
     "an exception out of Plot.plot() for a plottable, fitted configuration is a violation (the statement quantifies over all plottable configurations)",
+    "band tolerance = 1e-3 * half width + 2 * |band(J_cd) - band(J)| with J_cd the plain central difference of the reference model with the documented step "
+    "(1 % of fit.parameter_errors); where that bound exceeds 1 % of the half width (ill-determined fit, model not linear over the step) the band is not judged and counted as discarded",
+    "ratio panels are only requested when no reference model value at the data points vanishes; asymmetric uncertainties are compared by magnitude (the form ^{+U}_{-D} "
+    "cannot display a sign); fits whose free parameters do not all have a finite positive uncertainty are discarded",
+    "after the fit (and MINOS) the results are read until two consecutive snapshots agree; the plot is compared with that state and discarded if the state differs after plotting",
 ]
 ANCHORS = [
     ("kafe2.fit._base.plot", "Plot.plot"),
@@ -142,8 +147,8 @@ def floors(tier):
     k = 1 if tier == "quick" else 25
     return {
         "comparisons": {
-            "plot.no-exception": 70 * k,
-            "data.marker": 60 * k,
+            "plot.no-exception": 50 * k,
+            "data.marker": 50 * k,
             "data.xbar": 25 * k,
             "data.ybar": 40 * k,
             "model.line": 20 * k,
@@ -160,20 +165,20 @@ def floors(tier):
             "pull.value": 4 * k,
             "pull.bar": 4 * k,
             "panel.band": 3 * k,
-            "legend.count": 60 * k,
-            "legend.value": 100 * k,
+            "legend.count": 45 * k,
+            "legend.value": 90 * k,
             "legend.error": 60 * k,
             "legend.asym-error": 8 * k,
-            "legend.gof": 40 * k,
-            "legend.ndf": 40 * k,
-            "legend.gof-per-ndf": 40 * k,
+            "legend.gof": 30 * k,
+            "legend.ndf": 30 * k,
+            "legend.gof-per-ndf": 30 * k,
             "legend.probability": 12 * k,
             "legend.cost": 10 * k,
         },
         "ops": ["Plot.plot", "do_fit"],
         "reach": ["%s:%s" % a for a in ANCHORS],
         "strata": ["%s|%s" % s for s in STRATA] + ["ucfg|%s|%s|%s" % u for u in UCFG] + ["fits|1", "fits|2", "fits|3", "fixed-parameter", "negative-model"],
-        "distinct_nontrivial": 55 * k,
+        "distinct_nontrivial": 45 * k,
     }
 
 
@@ -336,7 +341,7 @@ class Expect:
         self.yerr_declared = np.sqrt(np.clip(np.diag(r.axis_cov("y", p)), 0.0, None))
         self.yerr = np.sqrt(self.yerr_declared**2 + (np.abs(self.y) if self.poisson else 0.0))
 
-    def band(self, xs, cov, free):
+    def band(self, xs, cov, free, errors=None):
         """(half width with the analytic Jacobian, bound of the error of a numerical Jacobian with the documented step).
 
         kafe2 documents that it differentiates numerically with a step of 1 % of the parameter uncertainty.  The second
@@ -345,7 +350,9 @@ class Expect:
         J = self.model.dfdp(xs, self.p)[free]  # n_free x N
         C = np.asarray(cov, dtype=float)[np.ix_(free, free)]
         half = np.sqrt(np.clip(np.einsum("in,ij,jn->n", J, C, J), 0.0, None))
-        sig = np.sqrt(np.clip(np.diag(C), 0.0, None))
+        # the documented step is 1 % of fit.parameter_errors (which an iminuit fit may hold inconsistent with the covariance
+        # matrix after a failed MINOS/HESSE: property C07's business)
+        sig = np.sqrt(np.clip(np.diag(C), 0.0, None)) if errors is None else np.abs(np.asarray(errors, dtype=float))[free]
         Jcd = np.zeros_like(J)
         for a, i in enumerate(free):
             h = 1e-2 * sig[a]
@@ -742,7 +749,7 @@ def check_member(ctx, plot, res_fig, axes, j, mb, h, opt, det, range_key=None):
             if not ctx.check("model.band.drawn", not have_errors, lambda: dict(det, why="the fit has valid parameter uncertainties but no band was drawn")):
                 return False
         elif h["cov"] is not None:
-            half = ex.band(xs, h["cov"], free)
+            half = ex.band(xs, h["cov"], free, h["errors"])
             if not check_band(ctx, "model.band", band, main, xs, f, half, det):
                 return False
     elif t == "hist":
@@ -804,7 +811,7 @@ def check_member(ctx, plot, res_fig, axes, j, mb, h, opt, det, range_key=None):
                 ml = pls.get("model_line")
                 xs = np.asarray(ml[0].get_xdata(), dtype=float)
                 f = ex.model.f(xs, p)
-                half = ex.band(xs, h["cov"], free)
+                half = ex.band(xs, h["cov"], free, h["errors"])
                 if panel == "ratio":
                     if np.all(np.abs(f) > 1e-12 * np.max(np.abs(f))):
                         if not check_band(ctx, "panel.band", pb, pax, xs, np.ones_like(xs), half, dict(det, panel=panel), divide_by=np.abs(f)):
@@ -908,7 +915,7 @@ def _run_case(ctx, case):
         ctx.discard("plot-timeout")
         return False
     except Exception as e:
-        ctx.check("plot.no-exception", False, {"exception": e, "traceback": fmt_exc(), "options": opt, "fit_types": [mb.spec["type"] for mb in members], "costs": [mb.spec.get("cost") for mb in members], "declared_sources": [len(mb.ref.sources) for mb in members]}, key=lambda: classify_exception(e, case, members))
+        ctx.check("plot.no-exception", False, {"exception": e, "traceback": fmt_exc(), "options": opt, "fit_types": [mb.spec["type"] for mb in members], "costs": [mb.spec.get("cost") for mb in members], "declared_sources": [len(mb.ref.sources) for mb in members]}, key=classify_exception(e, case, members))
         return False
     ctx.check("plot.no-exception", True)
     after = [held(mb.fit, want_asym) for mb in members]
@@ -962,16 +969,23 @@ def run_case(ctx, case):
 
 def run_shard(ctx):
     idx = 0
+    retries = 0
     while ctx.more():
         case = gen_case(ctx.rng, ctx.tier, idx, ctx.shard, ctx.nshards)
-        idx += 1
         ctx.begin_case(case)
         nontrivial = False
+        d0 = sum(ctx.discarded.values())
         try:
             nontrivial = run_case(ctx, case)
         except Exception:
             ctx.violation(None, "unexpected-exception", {"traceback": fmt_exc()})
         ctx.end_case(nontrivial=nontrivial)
+        # an enumerated stratum whose draw had to be discarded (fit failed, configuration not admissible) is drawn again
+        if idx * ctx.nshards + ctx.shard < N_ENUM and sum(ctx.discarded.values()) > d0 and retries < 5:
+            retries += 1
+            continue
+        retries = 0
+        idx += 1
 
 
 def replay(ctx, case):
